@@ -4,9 +4,8 @@
 use serde_json::{json, Value};
 use std::io::BufReader;
 use std::sync::atomic::{AtomicUsize, Ordering};
-use std::sync::{Arc, Mutex};
+use std::sync::Mutex;
 use vh_common::*;
-use vrp_pragmatic::checker::CheckerContext;
 use vrp_pragmatic::format::problem::*;
 use vrp_pragmatic::format::solution::deserialize_solution;
 
@@ -23,9 +22,10 @@ fn check(case: &Value) -> Value {
             .map_err(|e| json!({"verdict": "invalid", "errors": [e.to_string()]}))?;
         let core = (problem.clone(), matrices.clone()).read_pragmatic().map_err(|e| json!({"verdict": "invalid", "errors": [e.to_string()]}))?;
         let solution = deserialize_solution(BufReader::new(solution_text.as_bytes())).map_err(|e| json!({"verdict": "undeserializable", "errors": [e.to_string()]}))?;
-        let ctx = CheckerContext::new(Arc::new(core), problem, Some(matrices), solution)
-            .map_err(|e| json!({"verdict": "err", "errors": e.iter().map(|e| e.to_string()).collect::<Vec<_>>()}))?;
-        match ctx.check() {
+        // the documents are readable: now the bundled checker as the command line runs it (vrp-cli extensions/check)
+        let _ = (core, solution);
+        let matrix_readers = matrices_text.iter().map(|m| BufReader::new(m.as_bytes())).collect::<Vec<_>>();
+        match vrp_cli::extensions::check::check_pragmatic_solution(BufReader::new(problem_text.as_bytes()), BufReader::new(solution_text.as_bytes()), Some(matrix_readers)) {
             Ok(()) => Ok(json!({"verdict": "ok", "errors": []})),
             Err(e) => Ok(json!({"verdict": "err", "errors": e.iter().map(|e| e.to_string()).collect::<Vec<_>>()})),
         }
